@@ -1,3 +1,5 @@
+#[cfg(feature = "clpfd")]
+use crate::compound::CompoundObject;
 use crate::engine::Engine;
 use crate::goal::{AnyGoal, Goal};
 use crate::lterm::{LTerm, LTermInner};
@@ -41,9 +43,30 @@ fn force_ans<U: User, E: Engine<U>>(x: LTerm<U, E>) -> Goal<U, E> {
                 ]);
                 g.solve(solver, state)
             },
+            (LTermInner::<U, E>::Compound(compound), _) => {
+                // Label every term inside the compound object, like the elements of a list.
+                let mut terms: Vec<LTerm<U, E>> = vec![];
+                compound_terms(compound.as_ref(), &mut terms);
+                let terms = terms.into_iter().collect::<LTerm<U, E>>();
+                force_ans(terms).solve(solver, state)
+            }
             (_, _) => solver.start(&Goal::Succeed, state),
         }
     })
+}
+
+/// Collects the terms held (possibly nested) in a compound object.
+#[cfg(feature = "clpfd")]
+fn compound_terms<U: User, E: Engine<U>>(
+    object: &dyn CompoundObject<U, E>,
+    terms: &mut Vec<LTerm<U, E>>,
+) {
+    for child in object.children() {
+        match child.as_term() {
+            Some(term) => terms.push(term.clone()),
+            None => compound_terms(child, terms),
+        }
+    }
 }
 
 #[cfg(feature = "clpfd")]
